@@ -104,10 +104,16 @@ def match_spec(name, src, verdict):
 
 
 con = contract("cohdl._compiler.frontend._prepare_ast:PrepareAst.apply_impl", PROPS)
-SELF = Built([], lambda env: SObj(_Prep, _last_apply_inp=None, _context=None), lambda a: "<self>", lambda a: None)
-for name, (src, verdict) in PROGRAMS.items():
+# A match statement is a control statement: it selects which ASSIGNMENTS run.  A concurrent context "continuously drives its
+# targets"; a case statement is not a concurrent statement (and a target assigned in one case only would not be driven in the
+# others), so in a concurrent context every match statement is rejected -- like `if` with a run-time test and for-break chains.
+from cohdl._core._context import ContextType  # noqa: E402
+
+SELF = Built([], lambda env: SObj(_Prep, _last_apply_inp=None, _context=ContextType.SEQUENTIAL), lambda a: "<self>", lambda a: None)
+SELF_CONCURRENT = Built([], lambda env: SObj(_Prep, _last_apply_inp=None, _context=ContextType.CONCURRENT), lambda a: "<self in a concurrent context>", lambda a: None)
+for name, src, verdict, self_shape in [(n, s, v, SELF) for n, (s, v) in PROGRAMS.items()] + [(n + ",concurrent-context", s, "reject", SELF_CONCURRENT) for n, (s, v) in PROGRAMS.items() if v == "ok"]:
     node = ast.parse(src).body[0]
-    c = Case(f"match:{name}", [SELF, Built([], (lambda n: lambda env: n)(node), lambda a: "<match>", lambda a: None)], match_spec(name, src, verdict))
+    c = Case(f"match:{name}", [self_shape, Built([], (lambda n: lambda env: n)(node), lambda a: "<match>", lambda a: None)], match_spec(name, src, verdict))
     c.native = False
     c.models = [(_Prep.apply, _apply), (PA._make_static_comparable, lambda it, a, b: (a, b))]
     c.interp_flags = {"class_call_models": {
@@ -118,7 +124,7 @@ for name, (src, verdict) in PROGRAMS.items():
         Temporary[bool]: lambda it, args, kw: SObj(Temporary, f_tag="compare-result"),
         Temporary: lambda it, args, kw: SObj(Temporary, f_tag="compare-result"),  # when a subscript model of another module is loaded
     }}
-    c.custom_replay = "contracts.c03_match.replay_match_guard" if verdict == "reject" else "contracts.c03_match.replay_match_subject"
+    c.custom_replay = "contracts.c03_match.replay_match_concurrent" if self_shape is SELF_CONCURRENT else "contracts.c03_match.replay_match_guard" if verdict == "reject" else "contracts.c03_match.replay_match_subject"
     con.cases.append(c)
 
 
@@ -214,3 +220,38 @@ def replay_match_guard(payload):
 
     rc, out = _run_design(_MATCH_DESIGN)
     return {"reproduced": rc == 0 and ("GUARD-DROPPED" in out or "CASE-DROPPED" in out), "detail": out[-300:]}
+
+
+_CONCURRENT_DESIGN = '''
+from cohdl import Entity, Port, Bit, BitVector, std
+
+class Top(Entity):
+    a = Port.input(BitVector[2])
+    b = Port.input(Bit)
+    c = Port.input(Bit)
+    x = Port.output(Bit)
+
+    def architecture(self):
+        @std.concurrent
+        def logic():
+            match self.a:
+                case "00":
+                    self.x <<= self.b & self.c
+                case "01":
+                    pass
+
+try:
+    t = std.VhdlCompiler.to_string(Top)
+    arch = t[t.index("begin"):]
+    print("ACCEPTED", "CASE-STATEMENT-AT-CONCURRENT-LEVEL" if "case a is" in arch and "process" not in arch else "")
+except AssertionError as e:
+    print("REJECTED")
+'''
+
+
+def replay_match_concurrent(payload):
+    """a match statement in a concurrent context: a case statement between the concurrent statements of the architecture"""
+    from contracts.c06_extra import _run_design
+
+    rc, out = _run_design(_CONCURRENT_DESIGN)
+    return {"reproduced": rc == 0 and "CASE-STATEMENT-AT-CONCURRENT-LEVEL" in out, "detail": out[-300:]}
